@@ -1,7 +1,7 @@
 # C03 configuration families: each generator returns a case dict for resume.scenario().
 import math
 import vcommon as V
-from resume import cv_block
+from c03_resume import cv_block
 
 WIDTHS = [0.25, 0.5, 1.0, 2.0]
 
